@@ -22,10 +22,11 @@ PRETTYPRINTER = os.path.join(
     REPO, 'source/support/python/gch/gdb/prettyprinters/small_vector/prettyprinter.py')
 NATVIS = os.path.join(REPO, 'source/support/visualstudio/small_vector.natvis')
 CACHE = os.environ.get('SV_CACHE', os.path.join(VERIF, '.cache'))
-OUT = os.path.join(VERIF, 'out')
-EVIDENCE = os.path.join(VERIF, 'evidence')
+OUT = os.environ.get('SV_OUT', os.path.join(VERIF, 'out'))
+EVIDENCE = os.environ.get('SV_EVIDENCE', os.path.join(VERIF, 'evidence'))
 KNOWN = os.path.join(VERIF, 'known_findings.jsonl')
 JOBS = int(os.environ.get('SV_JOBS', str(os.cpu_count() or 4)))
+MAX_CACHE_GENERATIONS = 24
 
 CLANGXX = 'clang++'
 GXX = 'g++'
@@ -74,8 +75,13 @@ def cache_dir():
         try:
             gens = [g for g in os.listdir(CACHE) if g != header_digest()]
             gens.sort(key=lambda g: os.path.getmtime(os.path.join(CACHE, g)))
-            for g in gens[:-2]:  # keep at most two older generations (mutant runs flip back and forth)
+            for g in gens[:-MAX_CACHE_GENERATIONS]:  # mutant runs flip between header versions
                 shutil.rmtree(os.path.join(CACHE, g), ignore_errors=True)
+        except OSError:
+            pass
+    else:
+        try:
+            os.utime(d, None)
         except OSError:
             pass
     return d
@@ -87,25 +93,40 @@ def run(cmd, inp=None, timeout=1800, cwd=None):
     return p.returncode, p.stdout, p.stderr
 
 
-_probes_digest = None
+_file_digest = {}
+_inc_re = None
 
 
-def probes_digest():
-    """Digest of the probe headers/plugin sources that generated TUs may include."""
-    global _probes_digest
-    if _probes_digest is None:
-        h = hashlib.sha256()
-        for sub in ('probes', 'plugin', 'canaries'):
-            d = os.path.join(VERIF, sub)
-            if os.path.isdir(d):
-                for fn in sorted(os.listdir(d)):
-                    fp = os.path.join(d, fn)
-                    if os.path.isfile(fp) and not fn.endswith('.so'):
-                        h.update(fn.encode())
+def probes_digest(src_text=None):
+    """Digest of the probe headers a generated TU (transitively) includes from /verif/probes or
+    /verif/canaries.  Only the files actually included matter, so that adding an unrelated probe
+    header does not invalidate every cached compilation."""
+    import re
+    global _inc_re
+    if _inc_re is None:
+        _inc_re = re.compile(r'#\s*include\s*"([^"]+)"')
+    if not src_text:
+        return ''
+    seen = {}
+    work = [src_text]
+    while work:
+        t = work.pop()
+        for name in _inc_re.findall(t):
+            base = os.path.basename(name)
+            if base in seen:
+                continue
+            for sub in ('probes', 'canaries'):
+                fp = os.path.join(VERIF, sub, base)
+                if os.path.isfile(fp):
+                    if fp not in _file_digest:
                         with open(fp, 'rb') as f:
-                            h.update(f.read())
-        _probes_digest = h.hexdigest()[:16]
-    return _probes_digest
+                            data = f.read()
+                        _file_digest[fp] = (hashlib.sha256(data).hexdigest()[:16],
+                                            data.decode('utf-8', 'replace'))
+                    seen[base] = _file_digest[fp][0]
+                    work.append(_file_digest[fp][1])
+                    break
+    return ','.join('%s=%s' % kv for kv in sorted(seen.items()))
 
 
 def cached_tool(key_parts, cmd_builder, out_suffix, src_text=None, src_suffix='.cpp'):
@@ -114,7 +135,7 @@ def cached_tool(key_parts, cmd_builder, out_suffix, src_text=None, src_suffix='.
     cmd_builder(src_path, out_path) -> argv.  Returns (out_path, rc, stderr).  A failing run is
     cached as well (rc/stderr stored next to the output)."""
     d = cache_dir()
-    key = sha(probes_digest(), *[str(k) for k in key_parts], src_text or '')[:24]
+    key = sha(probes_digest(src_text), *[str(k) for k in key_parts], src_text or '')[:24]
     out = os.path.join(d, key + out_suffix)
     meta = os.path.join(d, key + '.meta')
     if os.path.exists(meta):
